@@ -23,6 +23,7 @@ import multiprocessing
 
 from .. import build, run
 from .. import c13_ref as ref
+NN = len(ref.NAMES)
 
 # --------------------------------------------------------------------------------------------- abstract alphabet
 EXH = ['An', 'Ae', 'Ah', 'Ad', 'As', 'Df', 'Dl', 'Cs', 'Cl', 'Dx', 'Nx', 'Q']
@@ -56,10 +57,10 @@ def q_bundle(m):
         ks.add(dead[0])
     ops = [('Ff', k + 1) for k in sorted(ks)]
     ops += [('Gi', i) for i in sorted(set([0, max(n - 1, 0), n]))]
-    ops += [('Gn', nm) for nm in range(7)] + [('Gn', 0 + 7 * 1), ('Gn', 1 + 7 * max(n - 1, 0)), ('Gn', 2 + 7 * n)]
+    ops += [('Gn', nm) for nm in range(NN)] + [('Gn', 0 + NN * 1), ('Gn', 1 + NN * max(n - 1, 0)), ('Gn', 2 + NN * n), ('Gn', 7 + NN * 1)]
     if n:
         ops += [('Ix', i) for i in sorted(set([0, n - 1]))]
-    ops += [('Kc', i) for i in range(7)] + [('Mx', 0)]
+    ops += [('Kc', i) for i in range(NN)] + [('Mx', 0)]
     return ops
 
 
@@ -114,11 +115,11 @@ def resolve_one(m, sym, sel, masks, note):
             return []
         return ['GI%d' % i]
     if sym == 'Gn':
-        return ['GN%d,%d' % (sel % 7, (sel // 7) % (n + 2))]
+        return ['GN%d,%d' % (sel % NN, (sel // NN) % (n + 2))]
     if sym == 'Ix':
         return ['IX%d' % (sel % n)] if n else []
     if sym == 'Kc':
-        return ['KC%d' % (sel % 7)]
+        return ['KC%d' % (sel % NN)]
     raise ValueError(sym)
 
 
